@@ -739,6 +739,11 @@ def correspondence(ctx):
                     jobs.append((bs, n, "inject", {"after_lines": lines, "kinds": [kind], "max": budget}, None))
     after_effect_family("core_maths", 3, 8)
     after_effect_family("core_maths", 3, 1000)       # in every round, until the rounds end
+    # every result check (KR) / every expansion (KX) of a run interrupted: all checked functions are un-merged at once, among them
+    # textually equal ones followed by different ones (the bookkeeping that renumbers the appended uniques)
+    for bs, n in ([("core_maths", 3), ("core_maths", 4)] if ctx.quick else [("core_maths", 3), ("core_maths", 4), ("keep_duplicates", 3)]):
+        for kinds, j in ((["KR"], 0), (["KR"], 1), (["KX"], 0), (["KR", "KX"], 0)):
+            jobs.append((bs, n, "inject", {"all_kinds": kinds, "j": j, "max": 1000}, None))
     if not ctx.quick:
         after_effect_family("core_maths", 4, 8)
         after_effect_family("core_maths", 4, 1000)
